@@ -71,6 +71,10 @@ pub struct ProgSpec {
     pub recursion: u8,
     pub data: Vec<u16>,
     pub strings: Vec<String>,
+    /// when set, the program is this raw word image written as `.fill` lines (arbitrary
+    /// instruction mixes for the debugger properties); everything else but the origin is ignored
+    #[serde(default)]
+    pub raw_words: Option<Vec<u16>>,
 }
 
 pub fn pg_op() -> impl Strategy<Value = PgOp> {
@@ -138,7 +142,16 @@ pub fn prog_spec(max_main: usize) -> impl Strategy<Value = ProgSpec> {
             recursion,
             data,
             strings,
+            raw_words: None,
         })
+}
+
+/// ProgSpec whose program is an arbitrary word image (never containing RTI encodings).
+pub fn raw_image_spec(words: impl Strategy<Value = Vec<u16>>) -> impl Strategy<Value = ProgSpec> {
+    (prog_spec(1), words).prop_map(|(mut spec, words)| {
+        spec.raw_words = Some(words.into_iter().map(|w| if w >> 12 == 8 { w & 0x0FFF | 0x1000 } else { w }).collect());
+        spec
+    })
 }
 
 #[derive(Clone, Debug)]
@@ -367,6 +380,20 @@ pub fn origin_for(spec: &ProgSpec) -> u16 {
 /// subroutines first behind a jump, main last).
 pub fn build(spec: &ProgSpec) -> Built {
     let orig = origin_for(spec);
+    if let Some(words) = &spec.raw_words {
+        let mut lines = Vec::new();
+        if spec.orig_sel != 0 {
+            lines.push(Line { label: None, body: Body::Orig(Lit::Hex(orig, (spec.orig_sel & 3) as u8)) });
+        }
+        for (i, w) in words.iter().enumerate() {
+            let label = if i == 0 { Some(("MAIN".to_string(), false)) } else if i % 4 == 2 { Some((format!("W{i}"), i % 8 == 2)) } else { None };
+            lines.push(Line { label, body: Body::Stmt(Stmt::new(Op::Fill, &[], Operand::Lit(Lit::Hex(*w, 0)))) });
+        }
+        if words.is_empty() {
+            lines.push(Line::stmt(Some("MAIN"), Stmt::simple(Op::Halt)));
+        }
+        return Built { program: Program { lines }, orig, stack: spec.stack, breaks: vec![] };
+    }
     let mut ending = spec.ending;
     if ending == Ending::BelowOrigin && orig == 0 {
         ending = Ending::Halt;
